@@ -132,11 +132,11 @@ pub fn c07() -> Check {
         assumptions: ASSUME,
         required: &["chaos_datagrams", "chaos_exact_deliveries"],
         workloads: vec![
-            Workload { name: "chaos", f: chaos_c07, quick: 20_000, thorough: 1_000_000, flav: Flav::Checked },
-            Workload { name: "driver", f: driver_c07, quick: 30_000, thorough: 1_500_000, flav: Flav::Checked },
+            Workload { name: "chaos", f: chaos_c07, quick: 40_000, thorough: 1_000_000, flav: Flav::Checked },
+            Workload { name: "driver", f: driver_c07, quick: 60_000, thorough: 1_500_000, flav: Flav::Checked },
             Workload { name: "exh", f: exh_c07, quick: 1_024, thorough: 1_024, flav: Flav::Checked },
-            Workload { name: "simmon", f: simmon_c07, quick: 1_500, thorough: 80_000, flav: Flav::Checked },
-            Workload { name: "sweep", f: sweep_c07, quick: 1_100, thorough: 55_000, flav: Flav::Checked },
+            Workload { name: "simmon", f: simmon_c07, quick: 3_000, thorough: 80_000, flav: Flav::Checked },
+            Workload { name: "sweep", f: sweep_c07, quick: 2_200, thorough: 55_000, flav: Flav::Checked },
             Workload { name: "big", f: big_c07, quick: 400, thorough: 20_000, flav: Flav::Plain },
         ],
         exhaustive: false,
@@ -151,12 +151,12 @@ pub fn c08() -> Check {
         assumptions: ASSUME,
         required: &["note/MemberUp", "note/Active"],
         workloads: vec![
-            Workload { name: "chaos", f: chaos_c08, quick: 20_000, thorough: 1_000_000, flav: Flav::Checked },
-            Workload { name: "driver", f: driver_c08, quick: 30_000, thorough: 1_500_000, flav: Flav::Checked },
+            Workload { name: "chaos", f: chaos_c08, quick: 40_000, thorough: 1_000_000, flav: Flav::Checked },
+            Workload { name: "driver", f: driver_c08, quick: 60_000, thorough: 1_500_000, flav: Flav::Checked },
             Workload { name: "exh", f: exh_c08, quick: 1_024, thorough: 1_024, flav: Flav::Checked },
-            Workload { name: "simmon", f: simmon_c08, quick: 1_500, thorough: 80_000, flav: Flav::Checked },
-            Workload { name: "wrap", f: wrap_c08, quick: 240, thorough: 12_000, flav: Flav::Checked },
-            Workload { name: "accrt", f: crate::checks::c08x::accrt_case, quick: 8_000, thorough: 400_000, flav: Flav::Checked },
+            Workload { name: "simmon", f: simmon_c08, quick: 3_000, thorough: 80_000, flav: Flav::Checked },
+            Workload { name: "wrap", f: wrap_c08, quick: 480, thorough: 12_000, flav: Flav::Checked },
+            Workload { name: "accrt", f: crate::checks::c08x::accrt_case, quick: 16_000, thorough: 400_000, flav: Flav::Checked },
         ],
         exhaustive: false,
         aggregate: None,
@@ -170,10 +170,10 @@ pub fn c09() -> Check {
         assumptions: ASSUME,
         required: &["chaos_calls"],
         workloads: vec![
-            Workload { name: "chaos", f: chaos_c09, quick: 20_000, thorough: 1_000_000, flav: Flav::Checked },
-            Workload { name: "driver", f: driver_c09, quick: 30_000, thorough: 1_500_000, flav: Flav::Checked },
+            Workload { name: "chaos", f: chaos_c09, quick: 40_000, thorough: 1_000_000, flav: Flav::Checked },
+            Workload { name: "driver", f: driver_c09, quick: 60_000, thorough: 1_500_000, flav: Flav::Checked },
             Workload { name: "exh", f: exh_c09, quick: 1_024, thorough: 1_024, flav: Flav::Checked },
-            Workload { name: "simmon", f: simmon_c09, quick: 1_500, thorough: 80_000, flav: Flav::Checked },
+            Workload { name: "simmon", f: simmon_c09, quick: 3_000, thorough: 80_000, flav: Flav::Checked },
         ],
         exhaustive: false,
         aggregate: None,
@@ -187,11 +187,11 @@ pub fn c10() -> Check {
         assumptions: ASSUME,
         required: &["headers_checked"],
         workloads: vec![
-            Workload { name: "chaos", f: chaos_c10, quick: 20_000, thorough: 1_000_000, flav: Flav::Checked },
-            Workload { name: "driver", f: driver_c10, quick: 30_000, thorough: 1_500_000, flav: Flav::Checked },
+            Workload { name: "chaos", f: chaos_c10, quick: 40_000, thorough: 1_000_000, flav: Flav::Checked },
+            Workload { name: "driver", f: driver_c10, quick: 60_000, thorough: 1_500_000, flav: Flav::Checked },
             Workload { name: "exh", f: exh_c10, quick: 1_024, thorough: 1_024, flav: Flav::Checked },
-            Workload { name: "simmon", f: simmon_c10, quick: 1_500, thorough: 80_000, flav: Flav::Checked },
-            Workload { name: "wrap", f: wrap_c10, quick: 240, thorough: 12_000, flav: Flav::Checked },
+            Workload { name: "simmon", f: simmon_c10, quick: 3_000, thorough: 80_000, flav: Flav::Checked },
+            Workload { name: "wrap", f: wrap_c10, quick: 480, thorough: 12_000, flav: Flav::Checked },
         ],
         exhaustive: false,
         aggregate: None,
@@ -205,11 +205,11 @@ pub fn c11() -> Check {
         assumptions: ASSUME,
         required: &["timeouts_effective", "timeouts_cancelled", "timeouts_stale_epoch"],
         workloads: vec![
-            Workload { name: "chaos", f: chaos_c11, quick: 20_000, thorough: 1_000_000, flav: Flav::Checked },
-            Workload { name: "driver", f: driver_c11, quick: 30_000, thorough: 1_500_000, flav: Flav::Checked },
+            Workload { name: "chaos", f: chaos_c11, quick: 40_000, thorough: 1_000_000, flav: Flav::Checked },
+            Workload { name: "driver", f: driver_c11, quick: 60_000, thorough: 1_500_000, flav: Flav::Checked },
             Workload { name: "exh", f: exh_c11, quick: 1_024, thorough: 1_024, flav: Flav::Checked },
-            Workload { name: "simmon", f: simmon_c11, quick: 1_500, thorough: 80_000, flav: Flav::Checked },
-            Workload { name: "wrap", f: wrap_c11, quick: 240, thorough: 12_000, flav: Flav::Checked },
+            Workload { name: "simmon", f: simmon_c11, quick: 3_000, thorough: 80_000, flav: Flav::Checked },
+            Workload { name: "wrap", f: wrap_c11, quick: 480, thorough: 12_000, flav: Flav::Checked },
             Workload { name: "table", f: crate::checks::tables::c11_table, quick: 9_520, thorough: 9_520, flav: Flav::Checked },
         ],
         exhaustive: false,
@@ -224,11 +224,11 @@ pub fn c12() -> Check {
         assumptions: ASSUME,
         required: &["rounds_started", "rounds_with_evidence", "rounds_without_evidence", "pingreqs_sent"],
         workloads: vec![
-            Workload { name: "chaos", f: chaos_c12, quick: 20_000, thorough: 1_000_000, flav: Flav::Checked },
-            Workload { name: "driver", f: driver_c12, quick: 30_000, thorough: 1_500_000, flav: Flav::Checked },
+            Workload { name: "chaos", f: chaos_c12, quick: 40_000, thorough: 1_000_000, flav: Flav::Checked },
+            Workload { name: "driver", f: driver_c12, quick: 60_000, thorough: 1_500_000, flav: Flav::Checked },
             Workload { name: "exh", f: exh_c12, quick: 1_024, thorough: 1_024, flav: Flav::Checked },
-            Workload { name: "simmon", f: simmon_c12, quick: 1_500, thorough: 80_000, flav: Flav::Checked },
-            Workload { name: "wrap", f: wrap_c12, quick: 240, thorough: 12_000, flav: Flav::Checked },
+            Workload { name: "simmon", f: simmon_c12, quick: 3_000, thorough: 80_000, flav: Flav::Checked },
+            Workload { name: "wrap", f: wrap_c12, quick: 480, thorough: 12_000, flav: Flav::Checked },
             Workload { name: "table", f: crate::checks::tables::c12_table, quick: 1_080, thorough: 1_080, flav: Flav::Checked },
         ],
         exhaustive: false,
@@ -243,11 +243,11 @@ pub fn c13() -> Check {
         assumptions: ASSUME,
         required: &["timers_delivered", "epochs_started"],
         workloads: vec![
-            Workload { name: "chaos", f: chaos_c13, quick: 20_000, thorough: 1_000_000, flav: Flav::Checked },
-            Workload { name: "driver", f: driver_c13, quick: 30_000, thorough: 1_500_000, flav: Flav::Checked },
+            Workload { name: "chaos", f: chaos_c13, quick: 40_000, thorough: 1_000_000, flav: Flav::Checked },
+            Workload { name: "driver", f: driver_c13, quick: 60_000, thorough: 1_500_000, flav: Flav::Checked },
             Workload { name: "exh", f: exh_c13, quick: 1_024, thorough: 1_024, flav: Flav::Checked },
-            Workload { name: "simmon", f: simmon_c13, quick: 1_500, thorough: 80_000, flav: Flav::Checked },
-            Workload { name: "wrap", f: wrap_c13, quick: 240, thorough: 12_000, flav: Flav::Checked },
+            Workload { name: "simmon", f: simmon_c13, quick: 3_000, thorough: 80_000, flav: Flav::Checked },
+            Workload { name: "wrap", f: wrap_c13, quick: 480, thorough: 12_000, flav: Flav::Checked },
         ],
         exhaustive: false,
         aggregate: None,
@@ -261,11 +261,11 @@ pub fn c15() -> Check {
         assumptions: ASSUME,
         required: &["updates_piggybacked", "updates_accepted_for_broadcast", "piggybacking_datagrams_accounted"],
         workloads: vec![
-            Workload { name: "chaos", f: chaos_c15, quick: 20_000, thorough: 1_000_000, flav: Flav::Checked },
-            Workload { name: "driver", f: driver_c15, quick: 30_000, thorough: 1_500_000, flav: Flav::Checked },
+            Workload { name: "chaos", f: chaos_c15, quick: 40_000, thorough: 1_000_000, flav: Flav::Checked },
+            Workload { name: "driver", f: driver_c15, quick: 60_000, thorough: 1_500_000, flav: Flav::Checked },
             Workload { name: "exh", f: exh_c15, quick: 1_024, thorough: 1_024, flav: Flav::Checked },
-            Workload { name: "simmon", f: simmon_c15, quick: 1_500, thorough: 80_000, flav: Flav::Checked },
-            Workload { name: "sweep", f: sweep_c15, quick: 1_100, thorough: 55_000, flav: Flav::Checked },
+            Workload { name: "simmon", f: simmon_c15, quick: 3_000, thorough: 80_000, flav: Flav::Checked },
+            Workload { name: "sweep", f: sweep_c15, quick: 2_200, thorough: 55_000, flav: Flav::Checked },
         ],
         exhaustive: false,
         aggregate: None,
@@ -279,11 +279,11 @@ pub fn c16() -> Check {
         assumptions: ASSUME,
         required: &["custom_items_sent", "custom_items_received", "broadcast_calls"],
         workloads: vec![
-            Workload { name: "chaos", f: chaos_c16, quick: 20_000, thorough: 1_000_000, flav: Flav::Checked },
-            Workload { name: "driver", f: driver_c16, quick: 30_000, thorough: 1_500_000, flav: Flav::Checked },
-            Workload { name: "sweep", f: sweep_c16, quick: 1_100, thorough: 55_000, flav: Flav::Both },
+            Workload { name: "chaos", f: chaos_c16, quick: 40_000, thorough: 1_000_000, flav: Flav::Checked },
+            Workload { name: "driver", f: driver_c16, quick: 60_000, thorough: 1_500_000, flav: Flav::Checked },
+            Workload { name: "sweep", f: sweep_c16, quick: 2_200, thorough: 55_000, flav: Flav::Both },
             Workload { name: "big", f: big_c16, quick: 400, thorough: 20_000, flav: Flav::Plain },
-            Workload { name: "simmon", f: simmon_c16, quick: 1_500, thorough: 80_000, flav: Flav::Checked },
+            Workload { name: "simmon", f: simmon_c16, quick: 3_000, thorough: 80_000, flav: Flav::Checked },
         ],
         exhaustive: false,
         aggregate: None,
@@ -297,10 +297,10 @@ pub fn c19() -> Check {
         assumptions: ASSUME,
         required: &["destinations_checked"],
         workloads: vec![
-            Workload { name: "chaos", f: chaos_c19, quick: 20_000, thorough: 1_000_000, flav: Flav::Checked },
-            Workload { name: "driver", f: driver_c19, quick: 30_000, thorough: 1_500_000, flav: Flav::Checked },
+            Workload { name: "chaos", f: chaos_c19, quick: 40_000, thorough: 1_000_000, flav: Flav::Checked },
+            Workload { name: "driver", f: driver_c19, quick: 60_000, thorough: 1_500_000, flav: Flav::Checked },
             Workload { name: "exh", f: exh_c19, quick: 1_024, thorough: 1_024, flav: Flav::Checked },
-            Workload { name: "simmon", f: simmon_c19, quick: 1_500, thorough: 80_000, flav: Flav::Checked },
+            Workload { name: "simmon", f: simmon_c19, quick: 3_000, thorough: 80_000, flav: Flav::Checked },
         ],
         exhaustive: false,
         aggregate: None,
